@@ -284,3 +284,8 @@ def canaries(tier):
          'patches': [(BS, "    def f_and_g_diagonal(self, t, y: Tensor):\n        y = y[:, :-1]\n        f, g, h = self._base_f(t, y), self._base_g(t, y), self._base_h(t, y)\n",
                       "    def f_and_g_diagonal(self, t, y: Tensor):\n        last = y[:, -1:]\n        y = y[:, :-1]\n        f, g, h = self._base_f(t, y) + last, self._base_g(t, y), self._base_h(t, y)\n")]},
     ]
+
+
+def native_replay(ob):
+    from props.base import run_native
+    return run_native('c18')
